@@ -481,6 +481,11 @@ async fn run_task(mut t: Task, ops: Vec<Value>) {
                         let c = incoming.remote_address().port() as i64 - 5000;
                         t.c = c;
                         t.done("ep_accept", json!({"res":"ok","c":c}));
+                        // the task holds the Incoming for a while before it decides: other tasks (one that
+                        // closes the endpoint, say) run in between
+                        for _ in 0..op.get("hold").and_then(|x| x.as_u64()).unwrap_or(0) {
+                            YieldNow(false).await;
+                        }
                         let act = op.get("inc").and_then(|x| x.as_str()).unwrap_or("accept");
                         match act {
                             "refuse" => {
